@@ -75,7 +75,8 @@ def faulty_member(rng, kind, base):
         return A.prop_tokens(('prop', tuple(m2), scope, pat))
     if kind == 'unknown-key':
         toks = A.prop_tokens(base)
-        return ['#', gen.pick(rng, ('foo', 'name', 'ID', 'Title', 'desc')), ':', 'bar'] + toks
+        key = gen.pick(rng, ('foo', 'name', 'ID', 'Title', 'desc', 'tit', 'script', 'd', 'i', 'ids', 'descriptions', 'led', 'dt'))
+        return ['#', key, ':', gen.pick(rng, ('bar', '"bar"', '"a title"'))] + toks
     if kind == 'trailing-annotation':
         return ['#', 'id', ':', 'dangling']
     if kind == 'syntax':
